@@ -88,5 +88,8 @@ def main(args):
     if what == 'selftest-sensitivity':
         from . import sensitivity
         return sensitivity.main(args)
+    if what == 'selftest-reach':
+        from . import reach
+        return reach.main(args)
     print('unknown selftest', what)
     return 2
